@@ -17,16 +17,36 @@
 //	    bodies only together exceed the limit), fed in one piece, every single cut and in pieces
 //	    of 1, 7, limit-1, limit, limit+1 bytes;
 //	(d) the malformed framing list (bad Content-Length, unsupported / repeated
-//	    Transfer-Encoding, bad chunk sizes, every structural CRLF with its CR or its LF removed),
-//	    each followed by a valid message, x one piece, every single cut, every double cut,
-//	    byte-at-a-time.
+//	    Transfer-Encoding, bad chunk sizes), each followed by a valid message, x one piece, every
+//	    single cut, every double cut, byte-at-a-time;
+//	(d2) the framing CR/LF neighbourhood (framing.go): for every base of a framing grammar
+//	    (requests and responses x {no body, Content-Length 0/3/LF-first/CRLF, chunked x 6 chunk
+//	    lists (one and two hex digits, data that looks like chunk framing) x extension x
+//	    0/1/2/empty-valued trailers} + header-set variants (none, one, empty value, OWS, SP-led
+//	    line, framing header first) + start-line variants (target, HTTP/1.0, reason with SP, empty
+//	    reason) + pipelines of 2-3 messages) and for EVERY CR and EVERY LF recorded by the
+//	    generator as message framing (request / status line end, every header line end,
+//	    header-block end, chunk-size line ends, chunk-data terminators, last-chunk line, trailer
+//	    lines, final blank line): delete it, double it, replace it by each byte of an alphabet
+//	    (always including the other byte of the pair), swap the pair, delete the pair; each
+//	    neighbour is continued by a valid message (directly / behind an empty line) and fed in one
+//	    piece, at every single cut and byte-at-a-time (core bases: deletions also at every double
+//	    cut; thorough: nine neighbour kinds at every double cut). It replaces the hand-picked list
+//	    "every structural CRLF minus CR / minus LF over 10 bases", whose space had no witness for
+//	    a parser that stops looking at ONE of these bytes unless the deletion happened to
+//	    leave a stream the broken parser still accepts (single-hex-digit chunk sizes never did).
 //
 // Oracle: no recover() block logs a panic; every Parse returns (watchdog 30 s); after an error
 // and the engine's reaction (CloseAndClean) further Parse calls return an error and produce no
 // callback; after every call the carry-over buffer is <= ReadLimit + len(last read)
 // (cross-checked against the allocator's live bytes); no message with a body larger than
 // MaxHTTPBodySize is accepted; limits do not alter streams that stay within them; every input
-// of (d) is rejected: Parse returns an error and the malformed message is never delivered.
+// of (d) is rejected: Parse returns an error and the malformed message is never delivered;
+// every neighbour of (d2) in which an independent strict recogniser (httpgen.StrictFraming)
+// finds a CR/LF framing error in message k is rejected: message k never completes and some
+// Parse call returns an error; neighbours that are again well-formed or merely incomplete
+// (e.g. the LF of the header-block end deleted in front of a body that starts with LF, the
+// final LF deleted in front of a continuation that starts with LF) are not judged.
 //
 // Deviations from DESIGN section 4 (C08): (d) is judged with the real processors only (the
 // HTTP-version check lives in the Processor, a recording Processor accepts any version token);
@@ -698,7 +718,7 @@ func replay(_ string, raw json.RawMessage) string {
 func main() {
 	vkit.Main(&vkit.Spec{
 		Property: "C08", Level: "model_checking",
-		Rule: "one case = (byte stream, segmentation, processor, ReadLimit, MaxHTTPBodySize) executed on the real nbhttp.Parser; (a) all strings of length <= 4 (thorough 6) over 12 symbols after each of 11 parser-parking prefixes x {one piece, prefix+suffix, suffix byte-at-a-time}; (b) all distinct single-byte mutants of 20 base messages x {one piece, every single cut, byte-at-a-time; thorough: every double cut with the real processors}; (c) 3x3 limit configurations x 82 messages straddling 16/64 (tokens) and 4/64 (bodies) x {one piece, every single cut, pieces of 1,7,limit-1,limit,limit+1}; (d) malformed framing list (content-length, transfer-encoding, chunk-size forms, every structural CRLF minus CR / minus LF over 10 base messages, each continued by a valid message with and without a preceding empty line) x {one piece, every single cut, every double cut, byte-at-a-time}; a case is non-trivial when it ended in an error (the after-error clause is exercised by further Parse calls) or a feed left a non-empty carry-over buffer; every case of (c) is non-trivial by construction",
+		Rule: "one case = (byte stream, segmentation, processor, ReadLimit, MaxHTTPBodySize) executed on the real nbhttp.Parser; (a) all strings of length <= 4 (thorough 6) over 12 symbols after each of 11 parser-parking prefixes x {one piece, prefix+suffix, suffix byte-at-a-time}; (b) all distinct single-byte mutants of 20 base messages x {one piece, every single cut, byte-at-a-time; thorough: every double cut with the real processors}; (c) 3x3 limit configurations x 82 messages straddling 16/64 (tokens) and 4/64 (bodies) x {one piece, every single cut, pieces of 1,7,limit-1,limit,limit+1}; (d) malformed framing list (content-length, transfer-encoding, chunk-size forms, each continued by a valid message) x {one piece, every single cut, every double cut, byte-at-a-time}; (d2) every framing CR and LF (positions recorded by the generator: start line, header lines, header-block end, chunk-size lines, chunk-data terminators, last-chunk line, trailer lines, final blank line) of every base of the framing grammar (counter d2.bases; requests and responses; bodiless, Content-Length, chunked x chunk lists x extensions x trailers; header and start-line variants; pipelines) x {deleted, doubled, replaced by CR/LF/SP/X/HT/NUL/0/: (thorough: 17 bytes), pair swapped, pair deleted} x continuation {valid message, empty line + valid message (thorough: LF + valid message)} x {one piece, every single cut, byte-at-a-time with the real processor; one piece, 4 cuts around the change, byte-at-a-time with the recording processor; every double cut for the deletions on 12 core bases (thorough: 9 kinds on every base of the quick product)}, judged only where the strict recogniser finds a CR/LF framing error; a case is non-trivial when it ended in an error (the after-error clause is exercised by further Parse calls) or a feed left a non-empty carry-over buffer; every case of (c) is non-trivial by construction",
 		Assumptions: []string{
 			"a panic is detected through nbio's logging (recover() blocks log at error level); a hang is a Parse call that does not return within 30 s",
 			"after an error the harness calls CloseAndClean (what Engine.DataHandler's CloseWithError leads to) and then keeps feeding the rest of the stream and one valid message: every such call must return an error and no callback may fire",
@@ -707,6 +727,10 @@ func main() {
 			"a limit must not change the outcome of a stream that stays within it (carry-over + read <= ReadLimit at every call, every body <= MaxHTTPBodySize); where a limit is exceeded the parser may return ErrTooLong, and what it reported before is a prefix of the unlimited run",
 			"'rejected rather than guessed' (d): with the real Server/ClientProcessor, some Parse call returns an error before the end of a stream that continues with a complete valid message, and the malformed message is never delivered; recording-processor runs of (d) are only checked for robustness",
 			"not judged (counted as lenient): chunk size '1g', 'Content-Length: +3', two different Content-Length headers, Content-Length together with chunked",
+			"(d2) 'a missing CR or LF is rejected rather than guessed': which CR/LF bytes are framing is taken from the generator (Msg.EOLs), never from scanning payload; a neighbour must be rejected iff httpgen.StrictFraming (strict RFC 7230 line discipline: start line, header, chunk-size and trailer lines end in CR LF and contain no other CR or LF; chunk data of the announced size is followed by CR LF; shares no code with nbhttp) finds such an error in message k of neighbour + continuation; rejected = message k is never reported complete AND some Parse call returns an error (the stream always continues beyond the damaged byte); neighbours the recogniser finds well-formed, incomplete or wrong for another reason are executed for robustness only (counters d2.streams_not_judged ...)",
+			"(d2) RFC 7230 3.5 allows a recipient to accept a bare LF as line terminator; the property statement is stricter ('a missing CR or LF is rejected') and is what is judged",
+			"(d2) the recogniser is validated on every unchanged base (+ continuation): it must find it well-formed and nbhttp must complete the same number of messages with both processors, otherwise the base's neighbourhood is skipped and d2-reference-self-check-failed is reported",
+			"(d2) with the recording processor a framing error in a request line is not judged (the version token is validated by Processor.OnProto, a recording Processor accepts any token); everything else is judged with both processors",
 		},
 		Seq: run, ReplaySeq: replay, MinNonTrivial: 1000,
 	})
